@@ -19,6 +19,7 @@ import warnings
 import numpy as np
 
 from harness.core import PropertyCheck
+from harness.props import c03_file as F
 from harness.util import close, errname, fr, frac, frs, parse_rats
 
 SPACES = ["scanner", "aligned", "talairach", "mni", "unknown"]
@@ -334,7 +335,7 @@ def make_image_case(rng, malformed=None, n=None, design=None, fix0=None):
         fmts = rng.sample(FORMATS, rng.choice([1, 2, 4]))
     return {"kind": "img", "strict": strict, "fix0": use_fix0, "in": inn2, "out": outn2,
             "aff": aff2.tolist(), "shape": shape2, "dtype": dtype, "formats": fmts, "spec": spec,
-            "malformed": malformed}
+            "malformed": malformed, "pres": F.choose_pres(rng, int(np.prod(shape2)))}
 
 
 MALFORMED = ["space-coupled", "nonspace-coupled", "world", "toomany", "contradict", "unknown-incompatible",
@@ -430,8 +431,9 @@ def make_seed_header(rng):
             "magic_pair": rng.random() < 0.1}
 
 
-def _effective_dtype(dd, cur):
-    return dd if dd is not None else (cur if cur is not None else "f8")
+def _effective_dtype(dd, cur, data="f8"):
+    """explicit dtype, else the carried header's, else the dtype of the image's array"""
+    return dd if dd is not None else (cur if cur is not None else data)
 
 
 def make_hist_case(rng, tier):
@@ -461,8 +463,8 @@ def make_hist_case(rng, tier):
         else:
             c["strict"] = False
             dtype_from = rng.choice(["data", "data", "header", "header"] + DTYPES)
-            dd = {"data": "f8", "header": None}.get(dtype_from, dtype_from)
-        eff = _effective_dtype(dd, cur)
+            dd = {"data": c["pres"]["dtype"], "header": None}.get(dtype_from, dtype_from)
+        eff = _effective_dtype(dd, cur, c["pres"]["dtype"])
         lim = {"u1": 250, "i1": 120}.get(eff)
         if (lim and size > lim) or (via in (".img", ".img.gz") and eff not in DTYPES):
             dd = rng.choice(["i2", "f4", "f8"])
@@ -909,6 +911,39 @@ def parse_sources(repo):
                              for t in [st.test] + ([st.orelse[0].test] if st.orelse and isinstance(st.orelse[0], ast.If) else [])]
     except Exception as e:
         raise TieBroken(f"files.py: _type_from_filename has an unexpected shape ({type(e).__name__}: {e})")
+    # file level (wave 3): the tests and scalings of nifti2nipy, the if-chains of files.load / files.save, as text
+    try:
+        def chain(fn, pred):
+            res = []
+            for st in fn.body:
+                if isinstance(st, ast.If) and pred(ast.unparse(st.test)):
+                    cur = st
+                    while True:
+                        res.append((ast.unparse(cur.test), ast.unparse(cur.body[-1])))
+                        if cur.orelse and isinstance(cur.orelse[0], ast.If) and len(cur.orelse) == 1:
+                            cur = cur.orelse[0]
+                        else:
+                            if cur.orelse:
+                                res.append(("else", ast.unparse(cur.orelse[-1])))
+                            break
+            return res
+        ftree = ast.parse(open(os.path.join(repo, "nipy/io/files.py")).read())
+        fload = next(n for n in ftree.body if isinstance(n, ast.FunctionDef) and n.name == "load")
+        fsave = next(n for n in ftree.body if isinstance(n, ast.FunctionDef) and n.name == "save")
+        out["load_chain"] = chain(fload, lambda t: True)
+        out["save_dtype_chain"] = chain(fsave, lambda t: "dtype_from" in t)
+        out["save_dispatch_chain"] = [(t, b if "raise" not in b else "raise ValueError")
+                                      for t, b in chain(fsave, lambda t: "ftype" in t)]
+        ntree = ast.parse(open(path).read())
+        n2n = next(n for n in ntree.body if isinstance(n, ast.FunctionDef) and n.name == "nifti2nipy")
+        ifs = sorted((n for n in ast.walk(n2n) if isinstance(n, ast.If)), key=lambda n: (n.lineno, n.col_offset))
+        out["n2n_tests"] = [ast.unparse(n.test) for n in ifs]
+        asg = sorted((n for n in ast.walk(n2n) if isinstance(n, (ast.Assign, ast.AugAssign))
+                      and any(k in ast.unparse(n) for k in ("toffset", "scaling", "affine[:3]"))),
+                     key=lambda n: (n.lineno, n.col_offset))
+        out["n2n_scalings"] = [ast.unparse(n) for n in asg]
+    except Exception as e:
+        raise TieBroken(f"files.py / nifti_ref.py: load / save / nifti2nipy have an unexpected shape ({type(e).__name__}: {e})")
     return out
 
 
@@ -946,7 +981,7 @@ def _err_obs(e):
 class C03(PropertyCheck):
     id = "C03"
     title = "NIfTI save/load round trip preserves data and geometry, or refuses"
-    lean_modules = ["NipyVerif.Props.C03", "NipyVerif.Props.C03H"]
+    lean_modules = ["NipyVerif.Props.C03", "NipyVerif.Props.C03H", "NipyVerif.Props.C03F"]
     driver = "Drivers/C03.lean"
     rule = ("cases are (a) images (3..8-D, invertible dyadic spatial affine with flips/rotations/shears, any "
             "permutation of input axes and output coordinates, five spaces, time-like kind t/hz/ppm/rads or none "
@@ -963,8 +998,18 @@ class C03(PropertyCheck):
             "time-like kind x position x zero TR x naming side (all 1 616 in thorough, 320 sampled in quick); (d) raw "
             "NIfTI headers for nifti2nipy, name/affine configurations for _find_time_like; (e) files.py / spaces.py / "
             "image_spaces.py units (_type_from_filename + save dispatch, io_dtype, get_world_cs, known_space, XYZSpace, "
-            "make_xyz_image, is_xyz_affable / as_xyz_image, as_image, float32 rounding, default header).  Non-trivial = "
-            "more than 3 dimensions or a non-identity permutation or a refusal or a history; distinct by full JSON")
+            "make_xyz_image, is_xyz_affable / as_xyz_image, as_image, float32 rounding, default header); (f) INCOMING "
+            "FILES written with nibabel alone: sform only / qform only (signed permutations, the (1/2,1/2,1/2) quaternion, "
+            "oblique rotations) / both and different / both equal / neither, every code, mm / meter / micron / unknown, "
+            "sec / msec / usec / hz / ppm / rads / unknown, toffset, dim_info, pixdim[4:8] incl. a zero time step, intent, "
+            "scl_slope / scl_inter set (dyadic and non-dyadic, negative, slope 0) on u1 i1 i2 u2 i4 u4 i8 f4 f8 storage, "
+            "little / big endian, .nii / .nii.gz / .hdr+.img / gzipped pair / NIfTI-2, 3..7-D with length-1 4th axes with "
+            "and without time units, the .mnc guard; then 0-3 stages save_image(dtype_from = data / header / dtype, "
+            ".nii / .nii.gz / .hdr / .hdr.gz / .img / .img.gz) -> load_image on the loaded object, some saved once "
+            "more; (g) every image / history case builds its array in one of 11 dtypes (f8 f4 i2 u1 i4 i1 u2 i8 u4, "
+            "big-endian) and 9 memory layouts (C, Fortran, transposed view, negative strides, strided view of a "
+            "larger buffer, read-only, memory-mapped file) holding the same numbers.  Non-trivial = "
+            "more than 3 dimensions or a non-identity permutation or a refusal or a history or a file; distinct by full JSON")
     assumptions = [
         "nibabel.io_orientation (SVD / polar decomposition) is a parameter of the model: the orientations the "
         "implementation computed are passed to the model as a table, theorems quantify over every orientation function",
@@ -977,17 +1022,38 @@ class C03(PropertyCheck):
         "np.float32 (`f32` lines); the 'unknown'-space allclose test is modelled on unrounded zooms (rtol 1e-5 >> 2^-24)",
         "Nifti1Image.update_header rewrites sform/qform only when the header's best affine is not allclose to the image "
         "affine; nipy2nifti has just written that affine (codes are compared on every case)",
-        "file writing / gzip / the scaling of data into an integer storage dtype are nibabel's: exercised by the "
-        "oracle only (values to the precision of the storage type)",
+        "file level (Model/C03F): the fields of the header on disk reach the model as nibabel's accessors of "
+        "Nifti1Header.from_header(nib.load(f).header) return them (byte order, gzip, the header / data pair and the "
+        "NIfTI-2 -> NIfTI-1 field conversion are nibabel's; the packed dim_info / xyzt_units bytes are compared with the "
+        "model's packing on every file); the affine nibabel reads is modelled exactly (sform rows / qform from the "
+        "stored quaternion with fillpositive's threshold / base affine), its square root is the parameter `sq` "
+        "(ratSqrt, 1e-15 relative, in the driver; theorems need sq w2 * sq w2 = w2 on the header at hand)",
+        "data values: reading is modelled exactly (get_slope_inter + apply_read_scaling in binary64: loaded = "
+        "rnd64(rnd64(stored*slope)+inter), compared bit for bit); WRITING float data into an integer dtype (nibabel's "
+        "choice of scl_slope / scl_inter and its quantisation) stays a parameter: the oracle bounds the loaded value by "
+        "half a quantisation step of the file just written plus the binary32 precision of scl_slope / scl_inter",
+        "np.float32 * python-float (NumPy >= 2 'weak scalar' promotion) makes nifti2nipy scale a msec / usec time "
+        "step in binary32 (rnd32(z * rnd32(scaling))): modelled as written (`secView`); toffset is NOT scaled by the "
+        "time units by nifti2nipy (a file in msec with toffset 42 loads with origin 42 s): modelled as written, "
+        "outside the property (which starts from a nipy image), excluded from the file -> file oracle clause",
+        "the storage dtypes NIfTI-1 / SPM-Analyze hold are nibabel's tables (`niftiDtypes`, `analyzeDtypes`), checked "
+        "by the `dhist` lines; Analyze has no intercept, so nibabel refuses negative values into unsigned storage "
+        "(WriterError): tagged, not a finding",
         "the quantifier's 'offset on the time axis only' is read as an offset on a 't' axis: offsets on hz/ppm/rads "
         "or plain axes (which nifti_ref documents and tests as not stored) are correspondence-only",
         "couplings below the acceptance thresholds of the code (1e-8 space/non-space, 1e-5 among non-space axes) are "
         "accepted and dropped; the theorems state exact preservation for exactly block-structured affines and "
         "that acceptance implies the couplings are below those thresholds",
     ]
-    level_note = ("in-memory conversion for every incoming header, the affine / pixdim / toffset a NIfTI file keeps (up to "
-                  "the rounding parameter) and the file-type / dtype dispatch of save proved on the model; byte-level "
-                  "file formats, gzip, Analyze origin handling and integer data scaling are correspondence + oracle only")
+    level_note = ("in-memory conversion for every incoming header, the affine / pixdim / toffset a NIfTI file keeps (as an "
+                  "error bound: at most 2^-24 relative per entry, the driver's binary32 rounding proved to be that), the "
+                  "affine read from any incoming header (sform / qform-from-quaternion / base, orthogonality of the "
+                  "quaternion rotation, zooms of a qform-only file), load on any header (total for >= 3-D, space named by "
+                  "the code of the transform in force, ignores intent / dtype / scaling), dim_info / xyzt_units packing, "
+                  "data scaling on read (exact in binary64), the storage dtype along load / save histories (dtype_from "
+                  "policies, Analyze refusals) and the file-type dispatch of save proved on the model; byte order, gzip, "
+                  "header-class conversion, Analyze origin / .mat handling and the quantisation nibabel applies when "
+                  "WRITING float data into integer storage are correspondence + oracle only")
 
     # ------------------------------------------------------------------
     def generate(self, rng, tier):
@@ -1011,6 +1077,8 @@ class C03(PropertyCheck):
         cases.extend(make_grid_cases(rng, tier))
         for _ in range(n_misc):
             cases.append(make_misc_case(rng))
+        for _ in range(600 if tier == "quick" else 5000):
+            cases.append(F.make_infile_case(rng, tier))
         if tier == "thorough":
             # every permutation of input axes and of output coordinates of a 4-D and (sampled) 5-D image
             for n in (4, 5):
@@ -1055,12 +1123,23 @@ class C03(PropertyCheck):
         import logging
         warnings.filterwarnings("ignore")
         logging.getLogger("nibabel.global").setLevel(logging.CRITICAL)
-        return getattr(self, "_run_" + case["kind"])(case)
+        self._mmtmp = None
+        try:
+            return getattr(self, "_run_" + case["kind"])(case)
+        finally:
+            if self._mmtmp:
+                shutil.rmtree(self._mmtmp, ignore_errors=True)
+                self._mmtmp = None
 
-    def _mk(self, case, hdr=None):
+    def _mk(self, case, hdr=None, tmpdir=None):
+        """the image of a case; its array holds 0..N-1 in the dtype / memory layout `case['pres']` asks for"""
         from nipy.core.api import AffineTransform, CoordinateSystem, Image
         shape = case["shape"]
-        data = np.arange(int(np.prod(shape)), dtype=float).reshape(shape)
+        if (case.get("pres") or {}).get("layout") == "mm" and tmpdir is None:
+            if getattr(self, "_mmtmp", None) is None:
+                self._mmtmp = tempfile.mkdtemp(prefix="c03m-")
+            tmpdir = self._mmtmp
+        data = F.present(shape, case.get("pres"), tmpdir)
         cmap = AffineTransform(CoordinateSystem(case["in"], "voxels"), CoordinateSystem(case["out"], "world"),
                                np.array(case["aff"]))
         return Image(data, cmap, None if hdr is None else {"header": hdr}), data
@@ -1092,6 +1171,15 @@ class C03(PropertyCheck):
         L.append("def fileTypes : List (String × String) := [" + ", ".join(
             f"({_lean_str(e)}, {_lean_str(ty)})" for e, ty in t["filetypes"]) + "]")
         L.append("def compressedTests : List String := [" + ", ".join(map(_lean_str, t["compressed"])) + "]")
+        pairs = lambda l: "[" + ",\n   ".join(f"({_lean_str(a)}, {_lean_str(b)})" for a, b in l) + "]"
+        L.append("/-- files.load: its `if` statements as (test, last statement of the branch) -/")
+        L.append("def loadChain : List (String × String) :=\n  " + pairs(t["load_chain"]))
+        L.append("/-- files.save: the `dtype_from` chain and the file-type dispatch chain -/")
+        L.append("def saveDtypeChain : List (String × String) :=\n  " + pairs(t["save_dtype_chain"]))
+        L.append("def saveDispatchChain : List (String × String) :=\n  " + pairs(t["save_dispatch_chain"]))
+        L.append("/-- nifti2nipy: every `if` test in source order; the assignments that scale the affine / time step / origin -/")
+        L.append("def n2nTests : List String :=\n  [" + ",\n   ".join(map(_lean_str, t["n2n_tests"])) + "]")
+        L.append("def n2nScalings : List String := [" + ", ".join(map(_lean_str, t["n2n_scalings"])) + "]")
         L += ["", "end NipyVerif.C03.Gen", ""]
         return [("NipyVerif/Gen/C03Tables.lean", "\n".join(L))]
 
@@ -1176,6 +1264,9 @@ class C03(PropertyCheck):
             rng_ = float(data.max() - data.min()) if data.size else 0.0
             dt = np.dtype(c["dtype"])
             vtol = 1e-6 * max(1.0, rng_) if dt.kind == "f" else max(rng_ / (2.0 ** (8 * dt.itemsize) - 2), 0) + 1e-6
+            if dt.kind in "iu" and data.dtype.kind == "f" and data.size:
+                # scl_slope / scl_inter are binary32 fields, and nibabel scales float32 data in binary32
+                vtol += 2.0 ** -21 * float(np.abs(data).max())
             for ext in c["formats"]:
                 p = os.path.join(tmp, "im" + ext)
                 try:
@@ -1198,14 +1289,34 @@ class C03(PropertyCheck):
                          f"'{back.coordmap.function_range.coord_names[3]}'")
                 if d:
                     return d
+            # dtype_from='data' (the default): the file holds the array's own dtype; integer arrays come back exactly
+            ext = c["formats"][0]
+            ddt = data.dtype.newbyteorder("=")
+            if ext != ".img" or ddt.name in F.ANALYZE_OK:
+                import nibabel as nib
+                p = os.path.join(tmp, "dd" + ext)
+                try:
+                    save_image(img, p)
+                    back = load_image(p)
+                    disk = nib.load(p).header.get_data_dtype().newbyteorder("=")
+                except Exception as e:
+                    return (f"save/load through {ext} with dtype_from='data' ({ddt.name} array, {c['pres']['layout']} layout) raised "
+                            f"{type(e).__name__}: " + str(e).replace(tmp, "<tmp>"))
+                tags.append("file-data-policy")
+                if disk != ddt:
+                    return f"save_image(dtype_from='data') of a {ddt.name} array wrote {disk.name} to {ext}"
+                d = _compare_images(img, back, spec, 1e-5, 0.0 if ddt.kind in "iu" or ddt.itemsize == 8 else 1e-6 * max(1.0, rng_),
+                                    f"round trip through {ext} with dtype_from='data' ({ddt.name})", only_xyz=(ext == ".img"))
+                if d:
+                    return d
             return None
         finally:
             shutil.rmtree(tmp, ignore_errors=True)
 
     # ------------------------------------------------------------------
-    def _saveh_line(self, st, table, dd, has_hdr, start_obs):
+    def _saveh_line(self, st, table, dd, has_hdr, start_obs, data_dtype="float64"):
         head = f"{int(st['strict'])} {int(st['fix0'])} {_img_tokens(st['in'], st['out'], st['aff'], st['shape'])}"
-        return (f"saveh {head} {table} {'-' if dd is None else np.dtype(dd).name} {int(has_hdr)} float64 "
+        return (f"saveh {head} {table} {'-' if dd is None else np.dtype(dd).name} {int(has_hdr)} {data_dtype} "
                 f"{_raw_tokens(start_obs)}")
 
     def _run_hist(self, c):
@@ -1237,7 +1348,7 @@ class C03(PropertyCheck):
                     break
                 if ni is not None and any(float(v) != 1.0 for v in ni.header["pixdim"][len(ni.shape) + 1:]):
                     tags.append("stale-unused-pixdim-tail")
-                line = self._saveh_line(st, rec.table(), st["dd"], hdr is not None, start_obs)
+                line = self._saveh_line(st, rec.table(), st["dd"], hdr is not None, start_obs, data.dtype.name)
                 lines.append(line); impl.append(out)
                 if hdr is not None and hdr_before != (hdr.binaryblock, [bytes(e.get_content()) if isinstance(e.get_content(), (bytes, bytearray)) else repr(e.get_content()) for e in getattr(hdr, "extensions", [])]):
                     mut = "nipy2nifti:metadata-header"
@@ -1306,6 +1417,9 @@ class C03(PropertyCheck):
                         rng_ = float(data.max() - data.min()) if data.size else 0.0
                         dt = np.dtype(st["eff_dtype"])
                         vtol = 1e-6 * max(1.0, rng_) if dt.kind == "f" else max(rng_ / (2.0 ** (8 * dt.itemsize) - 2), 0) + 1e-6
+                        if dt.kind in "iu" and data.dtype.kind == "f":
+                            # scl_slope / scl_inter are binary32 fields: stored*slope+inter carries their rounding
+                            vtol += 2.0 ** -21 * float(np.abs(data).max()) if data.size else 0.0
                     analyze = via in (".img", ".img.gz")
                     fail = _compare_images(img, back, spec, ktol, vtol, what, only_xyz=analyze)
                     if fail is None and via != "mem":
@@ -1577,6 +1691,9 @@ class C03(PropertyCheck):
                     raise
         return rec["act"], rec.get("dd")
 
+    def _run_infile(self, c):
+        return F.run_infile(self, c)
+
     def _run_ftl(self, c):
         from nipy.io import nifti_ref as nr
         img, _ = self._mk(c)
@@ -1648,6 +1765,8 @@ class C03(PropertyCheck):
 
     def compare(self, case, impl_obs, model_out):
         kind = impl_obs[0]
+        if kind in ("imgx", "vals", "dhist"):
+            return F.compare_file(self, case, impl_obs, model_out)
         if kind == "tl":
             return None if impl_obs[1] == model_out else f"impl={impl_obs[1]!r} model={model_out!r}"
         if kind == "txt":
@@ -1754,6 +1873,8 @@ class C03(PropertyCheck):
         ma = parse_rats(" ".join(m["aff"]))
         if len(ma) != 16 or any(not close(a, b, 1e-12, 1e-12) for a, b in zip(aff, ma)):
             return f"affine impl={aff} model={[float(x) for x in ma]}"
+        if where == "geo":      # an image loaded from a file: its data are compared by the oracle
+            return None
         src = np.arange(int(np.prod(st["shape"])), dtype=float).reshape(st["shape"])
         axes = [None if a == "-" else int(a) for a in m["axes"]]
         real = [a for a in axes if a is not None]
@@ -1774,6 +1895,9 @@ class C03(PropertyCheck):
             return
         if case["kind"] == "misc":
             return
+        if case["kind"] == "infile":
+            yield from F.shrink_infile(case)
+            return
         if case.get("formats"):
             for f in case["formats"]:
                 c = dict(case); c["formats"] = [f]
@@ -1791,7 +1915,7 @@ class C03(PropertyCheck):
     def _rechain(case):
         cur = case["seed"]["dtype"] if case["seed"] else None
         for st in case["stages"]:
-            st["eff_dtype"] = _effective_dtype(st["dd"], cur)
+            st["eff_dtype"] = _effective_dtype(st["dd"], cur, (st.get("pres") or {}).get("dtype", "f8"))
             cur = st["eff_dtype"]
         return case
 
